@@ -2,7 +2,10 @@
 
 package pongo2
 
-import "sort"
+import (
+	"sort"
+	"sync/atomic"
+)
 
 // Hooks for the verification harness under /verif. Compiled only with -tags verif;
 // they add read-only views of unexported state and change no behaviour.
@@ -51,7 +54,7 @@ type VerifSetStateView struct {
 
 // VerifSetState returns a snapshot of the set's sandbox and cache state.
 func VerifSetState(set *TemplateSet) VerifSetStateView {
-	v := VerifSetStateView{FirstTemplateCreated: set.firstTemplateCreated}
+	v := VerifSetStateView{FirstTemplateCreated: atomic.LoadUint32(&set.firstTemplateCreated) != 0}
 	for n := range set.bannedTags {
 		v.BannedTags = append(v.BannedTags, n)
 	}
